@@ -460,7 +460,7 @@ def catalogue(size, full_square):
             "bytes=%s_0-" % A, "bytes=%s-%s_0" % (A, C), "bytes=-1_0", "bytes=0_0-%s" % C,
             "bytes=%s -%s" % (A, C), "bytes=%s- %s" % (A, C), "bytes=%s - %s" % (A, C), "bytes=- %s" % C, "bytes= %s - %s " % (A, C), "bytes=%s\t-%s" % (A, C),
             "bytes=%s-%s" % (ar, C), "bytes=%s-%s" % (A, fw), "bytes=-%s" % fw, "bytes=%s-" % ar,
-            "bytes=\u00a0%s-%s" % (A, C), "bytes=%s-%s\u2003" % (A, C), "bytes=%s\u00a0-%s" % (A, C), "bytes=\n%s-%s" % (A, C), "bytes=%s-%s\x0b" % (A, C), "bytes=%s-\x0c%s" % (A, C),
+            "bytes=\u00a0%s-%s" % (A, C), "bytes=%s-%s\u2003" % (A, C), "bytes=%s\u00a0-%s" % (A, C), "bytes=%s-%s\x0b" % (A, C), "bytes=%s-\x0c%s" % (A, C),
             "bytes=0x%s-%s" % (A, C), "bytes=%s.0-%s" % (A, C), "bytes=%se0-" % A, "bytes=a-b", "bytes=%s-%s;q=1" % (A, C), "bytes=%s-%s=%s" % (A, C, C),
             "bytes=%s-%s/%d" % (A, C, size), "bytes=%s-%s,x" % (A, C), "bytes=x,%s-%s" % (A, C), "bytes=%s-%s,+1-" % (A, C), "bytes=%s-%s,1_0-" % (A, C),
             "bytes=0%s-00%s" % (A, C), "bytes=-0%s" % C,                      # leading zeros ARE grammatical (1*DIGIT)
@@ -533,3 +533,11 @@ def run(tier, seed):
                  "non-trivial = (size, header) with exactly one grammatical byte-range in canonical form, where the statement fixes 206/416/200 uniquely") % (top, square),
     }
     return res, cov
+
+
+MANIFEST = {
+    "engine": "E",
+    "technique": "exhaustive enumeration of a boundary-complete (file size x Range header x method x entry point) grid on the real web resource, compared with a strict RFC 7233 reference responder",
+    "text": "Every file size 0..40 (thorough 0..300) is combined with every header of a catalogue built around that size (all first/last/suffix positions over the boundary values, the complete square for small sizes, two-range lists, ~75 malformed or lenient forms, undecodable bytes, no header), as GET and HEAD, through the real FileDownloader.render and FileNodeHandler.render on a real TahoeLAFSRequest; the response bytes are parsed back and compared with the set of outcomes the statement/RFC allow. Complete for the grid, nothing sampled.",
+    "note": "Stub file node (read writes the slice): real literal/CHK/SDMF/MDMF nodes on a grid are not exercised here. Multi-range requests and lenient header forms accept every RFC-conformant alternative; '416 although a later listed range is satisfiable' is only counted. Trusted: the reference parser/responder in this module.",
+}
